@@ -59,6 +59,24 @@ pub fn program_unit(p: &Program, l: Layout, text: String, cfg: Cfg) -> Unit {
     }
 }
 
+/// Number of slots of a corpus-A form that deviate from the base value (from the unit key `fam#n[i,j,..]@ctx/L`).
+pub fn form_deviations(key: &str) -> usize {
+    match (key.find('['), key.find(']')) {
+        (Some(a), Some(b)) if a < b => key[a + 1..b].split(',').filter(|c| !c.is_empty() && *c != "0").count(),
+        _ => 0,
+    }
+}
+
+/// Thorough-tier economy shared by the corpus properties: forms with two deviating slots are explored under
+/// the default configuration, from the one-line and the one-token-per-line layouts, in the first three
+/// contexts of their kind (`ctx_limit`); deviated configurations start from those two layouts as well.
+pub fn thorough_economy(u: &crate::explore::Unit) -> bool {
+    let default_cfg = u.cfg.kv.is_empty();
+    let l = u.key.rsplit('/').next().unwrap_or("");
+    let d = form_deviations(&u.key);
+    (default_cfg || l == "L0" || l == "LALL") && (default_cfg || d <= 1) && (d <= 1 || l == "L0" || l == "LALL")
+}
+
 /// Enumerate (program, layout, config) units of corpus A for a space.
 pub fn corpus_units(space: &Space, filter: Option<&dyn Fn(&gen::Template) -> bool>) -> Vec<Unit> {
     let progs = gen::programs(space.k, space.ctx_limit, filter);
